@@ -9,6 +9,7 @@ import (
 	"net/url"
 	"os"
 	"path/filepath"
+	"regexp"
 	"runtime"
 	"servitor/ansi"
 	"servitor/config"
@@ -46,6 +47,8 @@ func linkTable(v any, out *[]any) {
 }
 
 var hookSeq = 0
+
+var sgrPattern = regexp.MustCompile("\x1b\\[[0-9;]*m")
 
 func waitSettled(s *ui.State) bool { return waitSettledWith(s, s.VerifSettled) }
 
@@ -463,7 +466,8 @@ func init() {
 		sample := lastN(all, 3)
 		failures := 0
 		for _, f := range all {
-			if failures < 4 && strings.Contains(f, "Failed to") {
+			/* (every character of a frame carries its own style sequence) */
+			if failures < 4 && strings.Contains(sgrPattern.ReplaceAllString(f, ""), "Failed to") {
 				sample = append(sample, f)
 				failures++
 			}
